@@ -60,7 +60,8 @@ def main():
         res["existing_tests_pass"] = "FAIL" not in out and "panic" not in out
         res["existing_tests_tail"] = out[-600:]
         shutil.copy(demo, os.path.join(repo, demo_dir, "zz_seeded_demo_test.go"))
-        rc, out = sh("go test -mod=mod -count=1 -run %s . 2>&1 | tail -25" % runpat, cwd=os.path.join(repo, demo_dir), timeout=1800)
+        race = "-race" if meta.get("race") is True else ""
+        rc, out = sh("go test -mod=mod -count=1 %s -run %s . 2>&1 | tail -25" % (race, runpat), cwd=os.path.join(repo, demo_dir), timeout=1800)
         res["patched_demo_fails"] = "FAIL" in out or "panic" in out
         res["patched_demo_tail"] = out[-800:]
         os.remove(os.path.join(repo, demo_dir, "zz_seeded_demo_test.go"))
